@@ -1578,13 +1578,14 @@ std::string cfg_text(const fit_cfg_t& c)
            " wscale=" + c.wscale;
 }
 
-void run_fit(const uint64_t seed, const long scenario, const bool thorough)
+void run_fit(const uint64_t seed, const long scenario, const bool thorough, const bool reduced)
 {
     vh::rng_t rng(mix(seed ^ 0x400F400FULL, static_cast<uint64_t>(scenario)));
     fit_cfg_t cfg;
     // linear models on even scenarios (the L1-regularised ones are expensive to fit accurately: one in four), gboost on odd ones
     static const int lkinds[] = {0, 2, 0, 2, 0, 2, 1, 3};
     cfg.kind      = static_cast<int>(scenario % 2 == 0 ? lkinds[rng.range(0, 7)] : 4);
+    if (reduced && (cfg.kind == 1 || cfg.kind == 3)) --cfg.kind; // reduced set (ThreadSanitizer run of the quick tier): no L1 fits (minutes under TSan)
     cfg.folds     = rng.range(2, 3);
     cfg.splitseed = rng.range(0, 1024);
     cfg.splitter  = rng.range(0, 3) == 0 ? "random" : "k-fold";
@@ -1811,11 +1812,11 @@ int main(int argc, char** argv)
     verif::g_sched_hook.store(&on_sched);
     verif::g_event_hook.store(&on_event_tune);
 
-    const long n_loop    = thorough ? 600 : (reduced ? 24 : 80);
-    const long n_dataset = thorough ? 100 : (reduced ? 4 : 12);
+    const long n_loop    = thorough ? 600 : (reduced ? 40 : 80);
+    const long n_dataset = thorough ? 100 : (reduced ? 6 : 12);
     const long n_predict = thorough ? 24 : (reduced ? 2 : 4);
-    const long n_tune    = thorough ? 200 : (reduced ? 5 : 24);
-    const long n_fit     = thorough ? 80 : (reduced ? 4 : 12);
+    const long n_tune    = thorough ? 200 : (reduced ? 8 : 24);
+    const long n_fit     = thorough ? 80 : (reduced ? 6 : 12);
     const long rounds    = thorough ? 6 : 1; // passes over the solver / loss ids
 
     if (want("loop"))
@@ -1832,9 +1833,9 @@ int main(int argc, char** argv)
         for (long round = 0; round < rounds; ++round)
         {
             for (size_t k = 0; k < sids.size(); ++k, ++scenario)
-                if (sel(scenario) && (only_k >= 0 || !reduced || (static_cast<uint64_t>(k) + seed) % 3 == 0)) user_minimize(seed, scenario, sids[k]);
+                if (sel(scenario) && (only_k >= 0 || !reduced || (static_cast<uint64_t>(k) + seed) % 2 == 0)) user_minimize(seed, scenario, sids[k]);
             for (size_t k = 0; k < lids.size(); ++k, ++scenario)
-                if (sel(scenario) && (only_k >= 0 || !reduced || (static_cast<uint64_t>(k) + seed) % 3 == 0)) user_loss(seed, scenario, lids[k]);
+                if (sel(scenario) && (only_k >= 0 || !reduced || (static_cast<uint64_t>(k) + seed) % 2 == 0)) user_loss(seed, scenario, lids[k]);
         }
         for (long k = 0; k < n_dataset; ++k, ++scenario)
             if (sel(scenario)) user_dataset(seed, scenario);
@@ -1846,7 +1847,7 @@ int main(int argc, char** argv)
             if (sel(k)) run_tune(seed, k);
     if (want("fit"))
         for (long k = 0; k < n_fit; ++k)
-            if (sel(k)) run_fit(seed, k, thorough);
+            if (sel(k)) run_fit(seed, k, thorough, reduced);
     if (want("tieprobe")) run_tieprobe(seed);
 
     if (tdir != nullptr)
